@@ -176,7 +176,12 @@ signal_impl::sweep()
   while (i != slots_.end())
   {
     if ((*i).empty())
+    {
+      // A slot that was connected while it was empty has never been disconnected:
+      // it still owns the self_and_iter struct that disconnect() releases.
+      i->disconnect();
       i = slots_.erase(i);
+    }
     else
       ++i;
   }
